@@ -76,3 +76,13 @@ func VerifC06_QueueDirPerId() {
 		sym.Reach("distinct")
 	}
 }
+
+// VerifC03_QueuesDoNotShareFiles: C03's bounds and conservation are per queue;
+// they presuppose that two buffer ids never share a queue directory (C06's
+// directory harness read for C03).
+//
+//verif:stub os.MkdirAll verifStubMkdirAll
+//verif:stub os.WriteFile verifStubWriteFile
+//verif:stub github.com/relex/slog-agent/util.MD5ToHexdigest verifStubMD5
+//verif:reach distinct equal
+func VerifC03_QueuesDoNotShareFiles() { VerifC06_QueueDirPerId() }
